@@ -319,7 +319,7 @@ def do_check(pid, spec, tier, seed, t0):
             # compiling belong to this property's own sources, with a type/trait error, the API the property is
             # about changed shape: a violation.  Anything else (another property's module, other error kinds) stays
             # a machinery failure.
-            mine = [e for e in bb.errors if any(e[0].endswith(sfx) for sfx in spec.get('sources', [])) and e[2] in ('E0308', 'E0277', 'E0599', 'E0271', 'E0596', 'E0594', 'E0015')]
+            mine = [e for e in bb.errors if any(e[0].endswith(sfx) for sfx in spec.get('sources', [])) and e[2] in ('E0308', 'E0277', 'E0271', 'E0596', 'E0594', 'E0015')]
             if not mine:
                 raise
             res = {'violations': [{'desc': f'{pid};client-code-no-longer-compiles;{os.path.basename(f)}:{ln}', 'what': f'valid client code of this property\'s API ({f}:{ln}) is rejected by the compiler against the crate as built from the working tree: {code} {msg}', 'stable': True, 'substrate': 'build'} for f, ln, code, msg in mine[:5]],
